@@ -251,6 +251,37 @@ fn fault_counter(f: &ImgFault, table_level: bool) -> &'static str {
 
 // ------------------------------------------------------------------ read-fonts sweep (C01)
 
+thread_local! {
+    static OVERRUN: std::cell::RefCell<Option<String>> = const { std::cell::RefCell::new(None) };
+}
+
+/// An iterator of the library yielded more items than its input can possibly hold (it would not have
+/// terminated by itself): reported by the engines as a violation of the termination clause.
+pub fn take_overrun() -> Option<String> {
+    OVERRUN.with(|o| o.borrow_mut().take())
+}
+
+/// Consumes `it`, which by construction of its input cannot hold more than `bound` items; the first
+/// `digest_first` items are handed to `f`. More than `bound` items means the iterator does not terminate.
+fn drain<I: Iterator>(it: I, bound: usize, digest_first: usize, what: &str, mut f: impl FnMut(I::Item)) {
+    let mut n = 0usize;
+    for x in it {
+        if n > bound {
+            OVERRUN.with(|o| {
+                let mut o = o.borrow_mut();
+                if o.is_none() {
+                    *o = Some(format!("{what} yielded more than {bound} items"));
+                }
+            });
+            return;
+        }
+        if n < digest_first {
+            f(x);
+        }
+        n += 1;
+    }
+}
+
 pub struct Budget {
     pub nodes: u64,
     pub max_nodes: u64,
@@ -495,10 +526,11 @@ fn helpers(font: &FontRef, d: &mut Digest, only: Option<Tag>, rng: &mut Rng) {
                         d.u64(s.has_overlapping_contours() as u64);
                     }
                     Ok(Some(read_fonts::tables::glyf::Glyph::Composite(c))) => {
-                        for comp in c.components().take(2000) {
+                        // a component record takes at least 4 bytes
+                        drain(c.components(), glyf.offset_data().len() / 4 + 1, 2000, "composite glyph components()", |comp| {
                             d.u64(comp.glyph.to_u16() as u64);
                             d.u64(comp.flags.bits() as u64);
-                        }
+                        });
                         d.u64(c.instructions().map(|i| i.len()).unwrap_or(0) as u64);
                         let (n, inst) = c.count_and_instructions();
                         d.u64(n as u64 ^ inst.map(|i| i.len() as u64).unwrap_or(0));
@@ -620,9 +652,8 @@ fn helpers(font: &FontRef, d: &mut Digest, only: Option<Tag>, rng: &mut Rng) {
             for r in name.name_record().iter().take(200) {
                 match r.string(name.string_data()) {
                     Ok(s) => {
-                        for c in s.chars().take(2000) {
-                            d.u64(c as u64);
-                        }
+                        // a string of n bytes decodes to at most n characters
+                        drain(s.chars(), r.length() as usize + 1, 2000, "name record string chars()", |c| d.u64(c as u64));
                     }
                     Err(e) => d.u64(err_code(&e)),
                 }
@@ -646,13 +677,26 @@ fn helpers(font: &FontRef, d: &mut Digest, only: Option<Tag>, rng: &mut Rng) {
             }
             for i in 0..cff.top_dicts().count().min(4) {
                 if let Ok(td) = cff.top_dicts().get(i as usize) {
-                    for e in read_fonts::tables::postscript::dict::entries(td, None).take(256) {
-                        d.u64(e.is_ok() as u64);
-                    }
+                    // every entry consumes at least one byte
+                    drain(read_fonts::tables::postscript::dict::entries(td, None), td.len() + 1, 256, "CFF top DICT entries()", |e| d.u64(e.is_ok() as u64));
                 }
             }
             for i in 0..cff.strings().count().min(400) {
                 d.u64(cff.strings().get(i as usize).map(|x| x.len() as u64).unwrap_or(9));
+            }
+            match cff.charset(0) {
+                Ok(Some(cs)) => {
+                    let n = cs.num_glyphs();
+                    d.u64(n as u64);
+                    for g in [0u32, 1, 2, n / 4, n / 2, n / 2 + 1, (n / 4) * 3, n.saturating_sub(2), n.saturating_sub(1), n, 70_000] {
+                        d.u64(cs.string_id(GlyphId::new(g)).map(|s| s.to_u16() as u64 + 1).unwrap_or(0));
+                    }
+                    let mut k = 0u64;
+                    drain(cs.iter(), 70_000, 70_000, "CFF charset iter()", |(g, sid)| k = k.wrapping_mul(31).wrapping_add(g.to_u32() as u64 ^ ((sid.to_u16() as u64) << 20)));
+                    d.u64(k);
+                }
+                Ok(None) => d.u64(7),
+                Err(_) => d.u64(8),
             }
             let gs = cff.global_subrs();
             for i in 0..gs.count().min(400) {
@@ -788,7 +832,7 @@ fn helpers(font: &FontRef, d: &mut Digest, only: Option<Tag>, rng: &mut Rng) {
     }
     if want(b"CFF2") {
         if let Ok(cff2) = font.cff2() {
-            for e in read_fonts::tables::postscript::dict::entries(cff2.top_dict_data(), None).take(256) {
+            for e in read_fonts::tables::postscript::dict::entries(cff2.top_dict_data(), None).take(cff2.top_dict_data().len() + 1) {
                 d.u64(e.is_ok() as u64);
             }
             let gs = cff2.global_subrs();
@@ -893,6 +937,9 @@ impl Engine for ReadImages {
         };
         let only = None;
         let (dg, exhausted) = sweep_image(&img, only, t.sweep_seed, 300_000);
+        if let Some(what) = take_overrun() {
+            return Verdict::Fail(Violation::new("C01", "C01.iteration_exceeds_input", what));
+        }
         if exhausted {
             stats.bump("probe.C01.walker_budget_reached");
         }
@@ -1149,10 +1196,16 @@ fn enum_execute(skrifa: bool, t: &mut EnumTrace, stats: &mut Stats) -> Verdict {
                 let mut sub = Stats::default();
                 d.u64(skrifa_sweep(&image, mix(t.image as u64, 7), Some(tag), &mut sub, 6, 3));
                 stats.bump("oracle.C02.total_sweep");
+                if let Some(what) = take_overrun() {
+                    return Verdict::Fail(Violation::new("C02", "C02.iteration_exceeds_input", format!("{what} (fault {f:?})")));
+                }
             } else {
                 let (dg, _) = sweep_image(&image, Some(tag), 1, 100_000);
                 d.u64(dg);
                 stats.bump("oracle.C01.total_read");
+                if let Some(what) = take_overrun() {
+                    return Verdict::Fail(Violation::new("C01", "C01.iteration_exceeds_input", format!("{what} (fault {f:?})")));
+                }
             }
         }
         t.only = None;
@@ -1285,15 +1338,21 @@ pub fn skrifa_sweep(bytes: &[u8], seed: u64, focus: Option<Tag>, stats: &mut Sta
     }
     for id in [skrifa::string::StringId::FAMILY_NAME, skrifa::string::StringId::POSTSCRIPT_NAME, skrifa::string::StringId::new(300)] {
         for s in font.localized_strings(id).take(16) {
-            d.u64(s.chars().take(1000).count() as u64);
+            let mut n = 0u64;
+            drain(s.chars(), 70_000, 70_000, "localized string chars()", |_| n += 1);
+            d.u64(n);
             d.u64(s.language().map(|l| l.len()).unwrap_or(0) as u64);
         }
     }
     let gn = font.glyph_names();
     d.u64(gn.num_glyphs() as u64);
-    for g in [0u32, 1, 5, 70000] {
+    let ng = gn.num_glyphs();
+    for g in [0u32, 1, 5, ng / 4, ng / 2, ng / 2 + 1, (ng / 4) * 3, ng.saturating_sub(1), ng, 70000] {
         d.u64(gn.get(GlyphId::new(g)).map(|n| n.len() as u64).unwrap_or(0));
     }
+    let mut k = 0u64;
+    drain(gn.iter(), 70_000, 70_000, "GlyphNames::iter()", |(g, n)| k = k.wrapping_mul(31).wrapping_add(g.to_u32() as u64 ^ ((n.len() as u64) << 20)));
+    d.u64(k);
     let zero: Vec<skrifa::instance::NormalizedCoord> = vec![];
     let locs: [&[skrifa::instance::NormalizedCoord]; 2] = [&zero, loc.coords()];
     for coords in locs {
@@ -1428,6 +1487,9 @@ impl Engine for SkrifaImages {
             return Verdict::Pass { digest: 0, sig: fnv(serde_json::to_string(&*t).unwrap_or_default().as_bytes()), nontrivial: false };
         };
         let dg = skrifa_sweep(&img, t.sweep_seed, t.table.map(|x| Tag::new(&x)), stats, 10, 4);
+        if let Some(what) = take_overrun() {
+            return Verdict::Fail(Violation::new("C02", "C02.iteration_exceeds_input", what));
+        }
         stats.bump("oracle.C02.total_sweep");
         Verdict::Pass { digest: dg, sig: fnv(serde_json::to_string(&(&t.image, &t.table, &t.faults, &t.torn_tables)).unwrap_or_default().as_bytes()), nontrivial: true }
     }
